@@ -13,12 +13,27 @@
 // checkpoint is justified by sup links wins (the node goes down; the wallet is only woken when the
 // best height exceeds its own).  Scripted corpus cases run first.
 //
+// The "rescan" stream (generated from the seed; corpus case corpus-rescan-reorg): on a growing block
+// tree the wallet is told 1..3 times to rescan from genesis (Wallet.RescanBlocks or
+// UpdateAccountAlias), mostly right after it has registered a LATE program (account A's addresses
+// 3, 4, account B's address 2: outputs of earlier blocks already pay them, so only a complete rescan
+// finds them).  A rescan either runs freely or is HELD: the wallet's database (wsim.gateDB) has a
+// turnstile in front of the NewBatch call that opens every AttachBlock / DetachBlock of the real
+// walletUpdater goroutine, so the updater performs a generated number of operations (anywhere
+// between genesis and the tip), then the node receives further blocks - extensions, or a side branch
+// that overtakes the best branch - with more operations in between, and then the updater is
+// released: it attaches and detaches with WorkHeight < BestHeight (rescan:detach-while-rescanning,
+// rescan:attach-while-rescanning in the distribution).  The wallet is observed only when it has
+// settled (work = best = the node's best block); a fresh wallet that registers the same programs is
+// the oracle.  Rescans are not in the model: these cases are judged by the oracle alone.
+//
 // Direct oracle (implementation outputs only):
 //   - after every delivery: every record Wallet.GetAccountUtxos lists is an unspent output, in the
 //     REAL state.UtxoViewpoint applied to the chain the wallet is attached to (class=phantom-utxo),
 //     and every unspent output of that chain paying one of the wallet's programs is listed
 //     (class=missing-utxo);
-//   - after every delivery that made the wallet detach (at most 3 per case) and at the end: a FRESH
+//   - after every delivery that made the wallet detach (at most 3 per case), after every rescan
+//     and at the end: a FRESH
 //     node + wallet (same accounts) fed only that chain lists the same records — identity, key
 //     space, asset, amount, program, vote key, account, program index, change flag
 //     (class=utxo-set / class=utxo-fields);
@@ -56,13 +71,18 @@ func coqObs24(d wsim.Deliv) string {
 func run(c *Ctx) error {
 	c.Stats.Rule = "a case counts as non-trivial when the wallet detached at least one block (a reorganisation reached the wallet); distinct = distinct (kind, seed)"
 	var cases []*wsim.Case
-	for _, k := range []string{"corpus-vote-detach", "corpus-cb-unspend-down", "corpus-vote-unspend-down"} {
+	for _, k := range []string{"corpus-vote-detach", "corpus-cb-unspend-down", "corpus-vote-unspend-down", "corpus-rescan-reorg"} {
 		cases = append(cases, &wsim.Case{ID: len(cases), Seed: 1, Kind: k})
 	}
 	n := c.N(100, 400)
 	kinds := []string{"random", "random", "votes", "votes", "deep", "down", "down"}
 	for i := 0; i < n; i++ {
 		cases = append(cases, &wsim.Case{ID: len(cases), Seed: c.Rng.Next(), Kind: kinds[c.Rng.Intn(len(kinds))]})
+	}
+	// the "rescan" stream (rescans from genesis, free-running or held half-way while the node receives
+	// blocks and reorganises, late programs); appended so that the cases above keep their seeds
+	for i, n := 0, c.N(48, 120); i < n; i++ {
+		cases = append(cases, &wsim.Case{ID: len(cases), Seed: c.Rng.Next(), Kind: "rescan"})
 	}
 	res, err := wsim.RunAll("c24", cases)
 	if err != nil {
@@ -96,6 +116,14 @@ func run(c *Ctx) error {
 		for _, f := range r.Fails24 {
 			c.Stats.Fail(f, descr)
 			c.Stats.Count("oracle-failure:" + strings.SplitN(strings.TrimPrefix(f, "class="), ":", 2)[0])
+		}
+		if cs.Kind == "rescan" || cs.Kind == "corpus-rescan-reorg" {
+			// rescans are not in the model (trusted base): these cases are judged by the oracle alone
+			c.Stats.Count("oracle_only_cases")
+			if r.Detach {
+				c.Stats.Sample(descr)
+			}
+			continue
 		}
 		var obs []string
 		for _, d := range r.Delivs {
